@@ -34,10 +34,12 @@
     * the lock group is unconditional: no client ever owns `weight_used` across a schedule point;
     * `guards`: the read guards of `get_ref` (`GuardInv`); `stepB_storeShard`: the shard map never changes.
 
-  Extension (multi-key reads `Req.mget`): the positions `.mgetStore` / `.mgetPool` hold no lock, no guard, no id and no
-  weight; `CTrans.mgetStep` / `CTrans.mgetFin` (one key's `store.get` hit / miss and `pool.add`, each followed by
-  `mgetNext`: `mgetNext_spec`, `mgetNext_ctrans`) touch only the statistics, the pool and the buffer queue; the first
-  action of a `mget` is `CTrans.startPlain` (→ `.mgetStore`, which is `CPc.plain`) or `CTrans.finish`.
+  Extension (multi-key reads `Req.mget`): the positions `.mgetFlag` (a load of the shutdown flag: an action of its own)
+  / `.mgetStore` / `.mgetPool` hold no lock, no guard, no id and no weight; `CTrans.mgetStep` / `CTrans.mgetFin` (a flag
+  load — `mgetFlagAct_spec` —, one key's `store.get` hit / miss and `pool.add`, the latter two followed by `mgetNext`:
+  `mgetNext_spec`, `mgetNext_ctrans`) touch only the statistics, the pool and the buffer queue (a flag load: nothing);
+  the first action of a `mget` (`mgetStart_spec`) is `CTrans.startPlain` (→ `.mgetFlag true …`, which is `CPc.plain`) or
+  `CTrans.finish` (an iterator over no keys).
 -/
 import CachedModel.LayerB
 import CachedProofs.Lemmas.Weights
@@ -585,7 +587,7 @@ theorem sweeperAct_trans {b b' : BState} {v : Option Nat} (h : sweeperAct b v = 
 /-- client positions reached from `start` that carry nothing the invariant talks about -/
 def CPc.plain : CPc → Prop
   | .delMark _ | .getStore _ | .weightRead | .upUpdate _ _ _ _ _ | .refStore _ | .shutCas
-  | .mgetStore _ _ _ _ => True
+  | .mgetStore _ _ _ _ | .mgetFlag _ _ _ _ => True
   | _ => False
 
 /-- the ways the tail of `put_or_update` can end -/
@@ -628,22 +630,50 @@ theorem poolAdd_frame {g g1 : State} {h : Nat} {o o' : Oracle} (hp : poolAdd g h
 
 /-- the client stands inside a multi-key read (`multi_get` or one of the iterators) -/
 def CPc.isMget : CPc → Bool
-  | .mgetStore _ _ _ _ | .mgetPool _ _ _ _ _ => true
+  | .mgetStore _ _ _ _ | .mgetPool _ _ _ _ _ | .mgetFlag _ _ _ _ => true
   | _ => false
 
-/-- the ways a multi-key read moves on after a key: the call returns, or (flag not set, a key left) it stands at the
-    store lookup of the next key with the results gathered so far -/
+/-- the ways a multi-key read moves on after a key: the call returns (no key left), or it stands before the next load
+    of the shutdown flag (`next()`'s own load for the iterators, the load inside `get` for `multi_get`) with the results
+    gathered so far; the shared state is not looked at -/
 theorem mgetNext_spec (b : BState) (i : Nat) (ks : List Nat) (acc : List (Option Nat)) (iter : Bool) :
-    (∃ out, mgetNext b i ks acc iter = finishCall b i out) ∨
-    (∃ k rest, ks = k :: rest ∧ b.g.shutting = false ∧
-      mgetNext b i ks acc iter = setClient b i (.mgetStore k rest acc iter)) := by
+    (ks = [] ∧ mgetNext b i ks acc iter = finishCall b i (.values acc)) ∨
+    (∃ k rest, ks = k :: rest ∧
+      mgetNext b i ks acc iter = setClient b i (.mgetFlag iter (k :: rest) acc iter)) := by
   unfold mgetNext
   split
-  · exact Or.inl ⟨_, rfl⟩
-  · split
-    · exact Or.inl ⟨_, rfl⟩
-    · rename_i hsh
-      exact Or.inr ⟨_, _, rfl, by simpa using hsh, rfl⟩
+  · exact Or.inl ⟨rfl, rfl⟩
+  · exact Or.inr ⟨_, _, rfl, rfl⟩
+
+/-- the first step of a multi-key read: an iterator over no keys returns at once, everything else stands before the
+    outer flag load; the shared state is not looked at -/
+theorem mgetStart_spec (b : BState) (i : Nat) (ks : List Nat) (iter : Bool) :
+    (iter = true ∧ ks = [] ∧ mgetStart b i ks iter = finishCall b i (.values [])) ∨
+    ((iter = false ∨ ks ≠ []) ∧ mgetStart b i ks iter = setClient b i (.mgetFlag true ks [] iter)) := by
+  unfold mgetStart
+  cases iter <;> cases ks <;> simp
+
+/-- the ways a flag load of a multi-key read ends: the call returns with what it has (outer load with the flag set; or
+    no key at all), the read stands before the load inside `get` (outer load, flag clear), this key is answered `none`
+    without a lookup and the read moves on (`get`'s load with the flag set), or the read stands at the lookup
+    (`get`'s load, flag clear) -/
+theorem mgetFlagAct_spec (b : BState) (i : Nat) (outer : Bool) (ks : List Nat) (acc : List (Option Nat)) (iter : Bool) :
+    ((ks = [] ∨ (outer = true ∧ b.g.shutting = true)) ∧ mgetFlagAct b i outer ks acc iter = finishCall b i (.values acc)) ∨
+    (∃ k rest, ks = k :: rest ∧ outer = true ∧ b.g.shutting = false ∧
+      mgetFlagAct b i outer ks acc iter = setClient b i (.mgetFlag false (k :: rest) acc iter)) ∨
+    (∃ k rest, ks = k :: rest ∧ outer = false ∧ b.g.shutting = true ∧
+      mgetFlagAct b i outer ks acc iter = mgetNext b i rest (acc ++ [none]) iter) ∨
+    (∃ k rest, ks = k :: rest ∧ outer = false ∧ b.g.shutting = false ∧
+      mgetFlagAct b i outer ks acc iter = setClient b i (.mgetStore k rest acc iter)) := by
+  unfold mgetFlagAct
+  cases ks with
+  | nil => exact Or.inl ⟨Or.inl rfl, rfl⟩
+  | cons k rest =>
+    cases outer <;> cases hs : b.g.shutting
+    · exact Or.inr (Or.inr (Or.inr ⟨k, rest, rfl, rfl, rfl, by simp⟩))
+    · exact Or.inr (Or.inr (Or.inl ⟨k, rest, rfl, rfl, rfl, by simp⟩))
+    · exact Or.inr (Or.inl ⟨k, rest, rfl, rfl, rfl, by simp⟩)
+    · exact Or.inl ⟨Or.inr ⟨rfl, rfl⟩, by simp⟩
 
 /-- One action of client `i`, as a relation. -/
 inductive CTrans (b : BState) (i : Nat) : BState → Prop where
@@ -714,7 +744,7 @@ theorem mgetNext_ctrans {b : BState} {i : Nat} {pc : CPc} {g' : State} {ks : Lis
     {iter : Bool} (hpc : b.cl[i]? = some pc) (hm : pc.isMget = true)
     (hg : g' = { b.g with pool := g'.pool, bufq := g'.bufq, stats := g'.stats }) :
     CTrans b i (mgetNext { b with g := g' } i ks acc iter) := by
-  rcases mgetNext_spec { b with g := g' } i ks acc iter with ⟨out, e⟩ | ⟨k, rest, _, _, e⟩ <;> rw [e]
+  rcases mgetNext_spec { b with g := g' } i ks acc iter with ⟨_, e⟩ | ⟨k, rest, _, e⟩ <;> rw [e]
   · exact .mgetFin _ _ _ hpc hm hg
   · exact .mgetStep _ _ _ hpc hm rfl hg
 
@@ -738,7 +768,10 @@ theorem clientAct_trans {b b' : BState} {i : Nat} {o o' : Oracle} (h : clientAct
         · exact .finish _ _ hpc rfl
         · exact .finish _ _ hpc rfl
         · exact .startPlain _ _ hpc trivial
-        · exact .finish _ _ hpc rfl
+        · rename_i ks iter
+          rcases mgetStart_spec b i ks iter with ⟨_, _, e⟩ | ⟨_, e⟩ <;> rw [e]
+          · exact .finish _ _ hpc rfl
+          · exact .startPlain _ _ hpc trivial
       · cases r <;> simp only [] at h
         · split at h
           all_goals simp only [Except.ok.injEq, Prod.mk.injEq] at h; obtain ⟨rfl, rfl⟩ := h
@@ -746,7 +779,7 @@ theorem clientAct_trans {b b' : BState} {i : Nat} {o o' : Oracle} (h : clientAct
           · exact .startPut _ _ _ _ hpc (by omega)
         all_goals simp only [Except.ok.injEq, Prod.mk.injEq] at h; obtain ⟨rfl, rfl⟩ := h
         case mget ks iter =>
-          rcases mgetNext_spec b i ks [] iter with ⟨out, e⟩ | ⟨k, rest, _, _, e⟩ <;> rw [e]
+          rcases mgetStart_spec b i ks iter with ⟨_, _, e⟩ | ⟨_, e⟩ <;> rw [e]
           · exact .finish _ _ hpc rfl
           · exact .startPlain _ _ hpc trivial
         all_goals exact .startPlain _ _ hpc trivial
@@ -955,6 +988,14 @@ theorem clientAct_trans {b b' : BState} {i : Nat} {o o' : Oracle} (h : clientAct
         simp only [Except.ok.injEq, Prod.mk.injEq] at h; obtain ⟨rfl, rfl⟩ := h
         exact mgetNext_ctrans hpc rfl (poolAdd_frame hp)
       · cases h
+    | mgetFlag outer ks acc iter =>
+      simp only [Except.ok.injEq, Prod.mk.injEq] at h; obtain ⟨rfl, rfl⟩ := h
+      rcases mgetFlagAct_spec b i outer ks acc iter with ⟨_, e⟩ | ⟨k, rest, _, _, _, e⟩ | ⟨k, rest, _, _, _, e⟩ |
+        ⟨k, rest, _, _, _, e⟩ <;> rw [e]
+      · exact .mgetFin _ b.g _ hpc rfl rfl
+      · exact .mgetStep _ _ b.g hpc rfl rfl rfl
+      · exact mgetNext_ctrans (g' := b.g) hpc rfl rfl
+      · exact .mgetStep _ _ b.g hpc rfl rfl rfl
 
 /-! ## 3  frame facts -/
 
